@@ -22,7 +22,7 @@ ASSUMPTIONS = ["a primitive refusing a non-rigid matrix with ValueError is a cle
 EXPLANATION = "Lean theorems C04_* (ring identities over the exact moments) + differential run on exact matrix families"
 
 CLASSES = ["rigid", "similarity", "mirror", "aniso", "shear", "near_identity", "just_outside", "translation",
-           "mirror_small", "rhombic"]
+           "mirror_small", "rhombic", "aniso_small"]
 
 
 def _matrix(rng, cls):
@@ -44,6 +44,10 @@ def _matrix(rng, cls):
             A = A * 2
     elif cls == "aniso":
         A = A @ np.diag([rng.choice([1, 2, 0.5]), rng.choice([2, 4]), rng.choice([1, 0.25])])
+    elif cls == "aniso_small":
+        # a factor per axis combined with a unit conversion: every entry far below one
+        A = A @ np.diag([rng.choice([1, 2, 0.5]), rng.choice([2, 4]), rng.choice([1, 0.25])]) * rng.choice([1e-5, 1e-6])
+        t = t * 1e-5
     elif cls == "shear":
         S = np.eye(3)
         S[0, 1] = rng.choice([0.5, 1, -0.25])
@@ -352,8 +356,8 @@ def oracle(c, o):
             return bad("area-differs-from-fresh-path", cached=c["cache"])
     elif kind == "primitive":
         if o.get("refused"):
-            return None if cls in ("aniso", "shear", "just_outside", "near_identity", "mirror", "mirror_small", "rhombic") else bad("rigid-matrix-refused", which=o["which"])
-        if cls in ("aniso", "shear"):
+            return None if cls in ("aniso", "aniso_small", "shear", "just_outside", "near_identity", "mirror", "mirror_small", "rhombic") else bad("rigid-matrix-refused", which=o["which"])
+        if cls in ("aniso", "aniso_small", "shear"):
             return bad("non-similarity-accepted-by-primitive", which=o["which"])
         if cls in ("near_identity", "just_outside"):
             return None
